@@ -26,6 +26,18 @@ TABLE = {
  "C15-b": ("C15", "akai/volume.py: SectorReadError ends the scan of the volume's entries", "truncated image, cut inside the header of a file listed BEFORE a file that lies wholly before the cut"),
  "C16-b": ("C16", "akai/sample.py: seek(0) without SEEK_SET (StreamWrapper.seek defaults to SEEK_CUR)", "the same opened AKAI image exported more than once"),
  "C20-b": ("C20", "akai/sample.py: scan of the loop table stops at the first zero-duration slot", "loop table with a gap: an unused slot followed by an active one"),
+ "C01-c": ("C01", "akai/sat.py: join of an earlier-resolved chain through links.append(join) (install terminates the joined sector)", "head not lowest sector AND the joined sector is not the chain's last"),
+ "C02-c": ("C02", "roland volume_entry.py: orphan scan limited to the first num_performances directory slots", "an orphan performance stored at a directory index >= the number of performances (free slots below it)"),
+ "C03-b": ("C03", "cdda/image.py: the no-op combine_stereo_routine override deleted", "two CDDA titles forming an L/R name pair: tracks are fused into a 4-channel sample and the export aborts"),
+ "C04-b": ("C04", "structural.py ExportManager: export_wav wrapped in try/except without continue", "a sample whose WAV encoding raises (low root key + large negative tuning): a 4-byte stub is reported as exported"),
+ "C07-c": ("C07", "akai/sat.py: the 'free / visited' branch tested before the 'reserved run ended' branch", "a directory run followed by a free sector, or by a sector of an already resolved chain"),
+ "C11-b": ("C11", "util/fat.py get_path memoised per start sector + roland fat.py get_file trimming the list in place", "Roland sample with cluster_top > 0 whose chain is requested a second time (another performance realised lazily) while the first stream is in use"),
+ "C13-c": ("C13", "akai/partition.py: size <= 0 guard replaced by a stream-position comparison with < instead of <=", "partition size word exactly 0 with an intact header: the scan re-parses the same header forever"),
+ "C14-c": ("C14", "akai/sat.py: get_segment memoised (lru_cache) so equal start sectors share one stateful stream", "an entry's start field damaged to the volume directory's own start sector: the table scan rewinds"),
+ "C16-c": ("C16", "structural.py make_export_name memoised by raw name only (is_file forgotten)", "a directory and a file of different branches with the same raw name ending in '-', and an ls into the later branch before the export"),
+ "C17-b": ("C17", "actions.py: set of distinct raw mode tokens instead of per-track lower-cased tests", "all-audio sheet whose TRACK lines spell AUDIO in different letter case"),
+ "C18-b": ("C18", "akai_string.py char_ascii_to_akai: str input rstrip()ped", "a text name ending in a blank (the bytes form is unaffected)"),
+ "C19-b": ("C19", "filters/common.py: 'digital silence' fast path in the ChickenSys IIR presets checks the input history only", "an all-zero block directly after a zero sample while the feedback tail is still ringing"),
  "C04-a": ("C04", "transcoder.py PassthroughTranscoder: ragged tail trimmed to a whole sample instead of a whole frame", "CDDA last track whose window ends 2-3 bytes past a stereo-frame boundary"),
  "C06-a": ("C06", "structural.py combine_stereo_routine: taken names hoisted out of the loop", "two complete L/R pairs with one stem and different separators in one directory"),
  "C09-a": ("C09", "alcohol/mdx.py: MDX payload size floored to a multiple of 2048", "MDX container, image size not a multiple of 2048, live sample data in the last partial sector"),
@@ -52,6 +64,12 @@ HISTORY = {
  "C10-b": "missed by the first version of C10 (no pool name that sanitises to nothing AND contains a separator); caught after adding '/', '*\\*', '?/?' to the pools",
  "C15-b": "missed by the first version of C15 (quick tier strided the cuts and picked images whose directory order equals allocation order); caught after all structure-interior cuts are kept and inversion-heavy images are selected",
  "C20-b": "first run ended with exit 2: the binding self-test used the first trace line, which the change made invalid; the self-test now picks an accepted line, and the change is reported as a violation",
+ "C02-c": "missed by the first version of C02 (records were always stored densely at indices 0..n-1); caught after RolandImage.tla got the 'spread' layout (records at index k+4)",
+ "C03-b": "missed by C03 (plain titles) and by the first quick tier of C06 (no complete L/R title pair in the CDDA pool slice); caught after adding the L/R title pool to C06's quick tier",
+ "C04-b": "missed by the first version of C04 (failing header values went only through the WAV builder directly); caught after images with a failing sample are exported through the real export",
+ "C11-b": "missed by the first version of C11 (no second request for a chain during a schedule); caught after the Roland target lists other performances sharing samples, preferring cluster_top > 0",
+ "C16-c": "missed by the first version of C16 (plain names, one partition); caught after the images got a file and a directory of different branches with the same raw name ending in '-'",
+ "C19-b": "would have been missed (signals without silence); caught after adding impulse / burst-silence / silence-burst signals",
  "C08-a": "caught marginally (3 behaviours) at first; a 5-sector scattered chain was added to the exhaustive depth-2 configurations",
 }
 
